@@ -2293,6 +2293,21 @@ class VM:
                 return pattern, second, ""
             return pattern, None, to_string(second)
 
+        def regexp_matches(regex):
+            """The matches of a RegExp argument of match and replace, found by
+            the regex's own exec: a global regex is run from lastIndex 0 until
+            it fails (lastIndex is 0 afterwards), any other is run once - from
+            its lastIndex, and only there, when it is sticky."""
+            internal = self._adopt_regex(regex)
+            if internal._global:
+                results = internal.match_all(s)
+            else:
+                internal.lastIndex = regex.lastIndex
+                result = internal.exec(s)
+                results = [] if result is None else [result]
+            regex._store_last_index()
+            return results
+
         def replace(*args):
             pattern, replacer, replacement = replace_arguments(args)
 
@@ -2300,7 +2315,6 @@ class VM:
                 # Replace with regex using microjs.regex
                 try:
                     regex_internal = self._adopt_regex(pattern)
-                    is_global = "g" in pattern._flags
                     capture_count = regex_internal._capture_count
 
                     def handle_replacement(match_result):
@@ -2315,27 +2329,13 @@ class VM:
 
                     result_parts = []
                     last_end = 0
-                    pos = 0
 
-                    while pos <= len(s):
-                        # Create fresh regex VM for each search
-                        vm_regex = regex_internal._create_vm()
-                        match_result = vm_regex.search(s, pos)
-                        if match_result is None:
-                            break
-
+                    for match_result in regexp_matches(pattern):
                         # Add the part before this match
                         result_parts.append(s[last_end : match_result.index])
                         # Add the replacement
                         result_parts.append(handle_replacement(match_result))
-
-                        # Move past the match
-                        match_len = len(match_result[0]) if match_result[0] else 0
-                        last_end = match_result.index + match_len
-                        pos = last_end if match_len > 0 else match_result.index + 1
-
-                        if not is_global:
-                            break
+                        last_end = match_result.index + len(match_result[0] or "")
 
                     # Add remainder after last match
                     result_parts.append(s[last_end:])
@@ -2394,64 +2394,39 @@ class VM:
 
             from .regex import RegExp as InternalRegExp
 
-            if isinstance(pattern, JSRegExp):
-                regex_internal = self._adopt_regex(pattern)
-                is_global = "g" in pattern._flags
-            else:
-                # Convert string to regex using microjs.regex
-                poll_callback = self._deadline_callback()
-                try:
-                    regex_internal = InternalRegExp(
-                        to_string(pattern), "", poll_callback
-                    )
-                except RegExpError as e:
-                    raise JSSyntaxError(f"Invalid regular expression: {e}")
-                is_global = False
-
             try:
-                if is_global:
-                    # Global flag: return all matches without groups
-                    matches = []
-                    pos = 0
-                    while pos <= len(s):
-                        # Create fresh regex VM for each search
-                        vm_regex = regex_internal._create_vm()
-                        result = vm_regex.search(s, pos)
-                        if result is None:
-                            break
-                        matches.append(result[0])
-                        # Advance position
-                        match_len = len(result[0]) if result[0] else 0
-                        pos = (
-                            result.index + match_len
-                            if match_len > 0
-                            else result.index + 1
-                        )
-
-                    if not matches:
-                        return NULL
-                    arr = JSArray()
-                    arr._elements = list(matches)
-                    return arr
+                if isinstance(pattern, JSRegExp):
+                    regex_internal = self._adopt_regex(pattern)
+                    results = regexp_matches(pattern)
                 else:
-                    # Non-global: return first match with groups
-                    vm_regex = regex_internal._create_vm()
-                    result = vm_regex.search(s, 0)
-                    if result is None:
-                        return NULL
-                    arr = JSArray()
-                    arr._elements = [result[0]]
-                    # Add captured groups (capture_count includes group 0, so iterate 1 to capture_count-1)
-                    capture_count = regex_internal._capture_count
-                    for i in range(1, capture_count):
-                        group_val = result[i]
-                        if group_val is None:
-                            arr._elements.append(UNDEFINED)
-                        else:
-                            arr._elements.append(group_val)
-                    arr.set("index", result.index)
-                    arr.set("input", s)
+                    # Convert string to regex using microjs.regex
+                    poll_callback = self._deadline_callback()
+                    try:
+                        regex_internal = InternalRegExp(
+                            to_string(pattern), "", poll_callback
+                        )
+                    except RegExpError as e:
+                        raise JSSyntaxError(f"Invalid regular expression: {e}")
+                    result = regex_internal.exec(s)
+                    results = [] if result is None else [result]
+
+                if not results:
+                    return NULL
+                arr = JSArray()
+                if regex_internal._global:
+                    # Global flag: all matches, without groups
+                    arr._elements = [result[0] for result in results]
                     return arr
+                # Otherwise the first match with its groups, as exec gives it
+                result = results[0]
+                arr._elements = [result[0]]
+                # Add captured groups (capture_count includes group 0, so iterate 1 to capture_count-1)
+                for i in range(1, regex_internal._capture_count):
+                    group_val = result[i]
+                    arr._elements.append(UNDEFINED if group_val is None else group_val)
+                arr.set("index", result.index)
+                arr.set("input", s)
+                return arr
             except RegexTimeoutError:
                 raise TimeLimitError("Regex execution timeout")
             except RegexStackOverflow:
@@ -2477,8 +2452,12 @@ class VM:
                     raise JSSyntaxError(f"Invalid regular expression: {e}")
 
             try:
-                vm_regex = regex_internal._create_vm()
-                result = vm_regex.search(s, 0)
+                # The regex's own exec from position 0 (a sticky regex matches
+                # there or not at all); the lastIndex it came with is kept
+                saved = regex_internal.lastIndex
+                regex_internal.lastIndex = 0
+                result = regex_internal.exec(s)
+                regex_internal.lastIndex = saved
                 return result.index if result else -1
             except RegexTimeoutError:
                 raise TimeLimitError("Regex execution timeout")
